@@ -24,6 +24,20 @@ ENV.pop("RUSTFLAGS", None)
 NOISE = re.compile(r"unstable feature|crate attribute|register_tool|^\s+\||^\s+= note|^\s*$")
 
 
+def _i(x):
+    try:
+        return int(x or 0)
+    except (TypeError, ValueError):
+        return 0
+
+
+def _f(x):
+    try:
+        return float(x or 0.0)
+    except (TypeError, ValueError):
+        return 0.0
+
+
 def sh(cmd, cwd=None, timeout=None, env=None, log=None):
     """run a command, return (rc, output); rc -9 on timeout"""
     start = time.time()
@@ -147,7 +161,7 @@ def write_registry(harnesses):
 # kani
 # --------------------------------------------------------------------------------------
 def kani_base(extra_cfg=()):
-    cmd = ["cargo", "kani", "-Z", "stubbing", "-Z", "unstable-options",
+    cmd = ["cargo", "kani", "-Z", "stubbing", "-Z", "unstable-options", "-Z", "restrict-vtable",
            "--target-dir", KANI_TARGET]
     return cmd
 
@@ -197,25 +211,25 @@ def kani_batch(harnesses, jobs, tag, rustflags_cfg=(), total_timeout=None):
             data = None
     by_full = {h.full: h for h in harnesses}
     if data:
-        stats = {c["harness_id"]: c.get("cbmc_stats", {}) for c in data.get("cbmc", [])}
-        props = {p["harness_id"]: p.get("property_details", {}) for p in data.get("property_details", [])}
+        stats = {c["harness_id"]: (c.get("cbmc_stats") or {}) for c in data.get("cbmc", [])}
+        props = {p["harness_id"]: (p.get("property_details") or {}) for p in data.get("property_details", [])}
         errs = {e["harness_id"]: e for e in data.get("error_details", [])}
         for res in data.get("verification_results", {}).get("results", []):
             h = by_full.get(res["harness_id"])
             if not h:
                 continue
             r = results[h.name]
-            pd = props.get(h.full, {})
-            st = stats.get(h.full, {})
-            r["wall_s"] = res.get("duration_ms", 0) / 1000.0
-            r["solver_s"] = float(st.get("runtime_solver_s", 0.0) or 0.0)
-            r["symex_s"] = float(st.get("runtime_symex_s", 0.0) or 0.0)
-            r["vccs"] = int(st.get("vccs_generated", 0) or 0)
-            r["checks_total"] = int(pd.get("total_properties", 0)) - int(pd.get("satisfied", 0)) - int(pd.get("unsatisfiable", 0))
-            r["checks_failed"] = int(pd.get("failed", 0))
-            r["undetermined"] = int(pd.get("undetermined", 0)) + int(pd.get("solver_error", 0))
-            r["covers_sat"] = int(pd.get("satisfied", 0))
-            r["covers_unsat"] = int(pd.get("unsatisfiable", 0))
+            pd = props.get(h.full) or {}
+            st = stats.get(h.full) or {}
+            r["wall_s"] = _f(res.get("duration_ms")) / 1000.0
+            r["solver_s"] = _f(st.get("runtime_solver_s"))
+            r["symex_s"] = _f(st.get("runtime_symex_s"))
+            r["vccs"] = _i(st.get("vccs_generated"))
+            r["checks_total"] = _i(pd.get("total_properties")) - _i(pd.get("satisfied")) - _i(pd.get("unsatisfiable"))
+            r["checks_failed"] = _i(pd.get("failed"))
+            r["undetermined"] = _i(pd.get("undetermined")) + _i(pd.get("solver_error"))
+            r["covers_sat"] = _i(pd.get("satisfied"))
+            r["covers_unsat"] = _i(pd.get("unsatisfiable"))
             failed = []
             for c in res.get("checks", []):
                 if c.get("status") == "Failure":
